@@ -414,7 +414,7 @@ func eraseBinding(r *core.Run) {
 // designCheck: the full set of invariants and the action property on a small instance with unordered
 // multiple insertions (insertions commute: RenderOK)
 func designCheck(r *core.Run) {
-	res := tlcrun.MustHold(r, tlcrun.Options{Module: "TsErase", Config: "TsErase.design.cfg", Workers: 2, TimeoutSec: 600, HeapGB: 4})
+	res := tlcrun.MustHold(r, tlcrun.Options{Module: "TsErase", Config: "TsErase.design.cfg", Workers: 1, TimeoutSec: 600, HeapGB: 4})
 	if res != nil {
 		r.Set("tlc_erase_design", map[string]interface{}{"generated": res.Generated, "distinct": res.Distinct, "depth": res.Depth,
 			"invariants": []string{"TypeOK", "EraseOK", "RenderOK", "Bounded", "RunsOK"}, "action_property": "InsertMonotone"})
